@@ -140,6 +140,10 @@ def run_pipeline(case):
     try:
         outdir = genargs.fresh_outdir()
         status, code, err = genargs.run_generator(genargs.build_argv(v, outdir), v['seed'])
+    except Violation as e:
+        if e.facet.startswith('exception:'):     # "accepted runs do not fail" is C15's statement
+            return Result(False, ['pipeline', 'skipped:exception'])
+        raise
     finally:
         np.random.choice = orig
     if status != 'ok':
